@@ -146,6 +146,7 @@ def cases(tier):
         yield {'fam': 'null', 'value': vid}
         yield {'fam': 'stage', 'value': vid}
     yield {'fam': 'commas'}
+    yield {'fam': 'defraise'}
     for i in range(len(TEXTS)):
         yield {'fam': 'trunc', 'value': 'str:%d' % i}
         yield {'fam': 'trunc', 'value': 'bytes:%d' % i}
@@ -527,7 +528,46 @@ def run_null(res, case):
     res.sample = {'value': repr(v), 'tag': tag(['null="N_n"', 'upper'])}
 
 
-RUNNERS = {'perm': run_perm, 'law': run_law, 'commas': run_commas, 'round': run_round,
+def run_defined_raises(res, case):
+    """missing= is for *undefined* names only: a defined name whose callable
+    (or sub-template) raises, also a KeyError, propagates that error"""
+    from DocumentTemplate import HTML
+    n = 0
+
+    def kerr(arg):
+        def f():
+            raise KeyError(arg)
+        return f
+
+    def other():
+        raise ValueError('v')
+    values = [('callable-KeyError-own-name', kerr('x'), 'KeyError'),
+              ('callable-KeyError-other', kerr('elsewhere'), 'KeyError'),
+              ('callable-ValueError', other, 'ValueError'),
+              ('template-undefined-inside', HTML('<dtml-var nowhere>'),
+               'KeyError'),
+              ('callable-ok', lambda: 'fine', None)]
+    for opts in (['missing="M_m"'], ['missing="M_m"', 'null="N"'],
+                 ['upper', 'missing="M_m"'], ['missing'],
+                 ['missing="M_m"', 'size=3']):
+        for src in (tag(opts), '<dtml-var name=x %s>' % ' '.join(opts),
+                    tag(opts, epfs=True)):
+            for label, v, exc in values:
+                got = rend(src, epfs=src.startswith('%'), x=v)
+                n += 1
+                want_exc = ('exc', exc)
+                if (exc and got != want_exc) or \
+                        (not exc and got[0] != 'ok'):
+                    res.violate('missing', 'missing:swallows-error:%s'
+                                % label, {'source': src, 'got': repr(got),
+                                          'expected': repr(want_exc)})
+    res.evals = n
+    res.nt_count = n
+    res.sample = {'tag': tag(['missing="M_m"']), 'value': 'callable that '
+                  'raises KeyError'}
+
+
+RUNNERS = {'defraise': run_defined_raises, 'perm': run_perm, 'law': run_law, 'commas': run_commas, 'round': run_round,
            'trunc': run_trunc, 'stage': run_stage, 'null': run_null}
 
 
